@@ -42,17 +42,22 @@ type CmdD struct {
 }
 
 // Rule: widget W (0 = any) offered an event of class Cls in phase Ph ("" =
-// any) returns Cmd. The first matching rule wins.
+// any) returns Cmd. The first matching rule wins. N > 0: the rule answers at
+// most N times (then it is skipped) until a step of type "arm" re-arms every
+// rule; scripted answers to notifications that move the focus are one-shot,
+// or two widgets would hand the focus to and fro for ever.
 type Rule struct {
 	W   int
 	Cls string
 	Ph  string `json:",omitempty"`
 	Cmd *CmdD
+	N   int `json:",omitempty"`
 }
 
 // Step: T = key (K = one of a..h, R redraw, Q quit, 0..9 layout switch) |
 // mouse (B = SGR button code, X, Y 0-based, Rel = release) | tfin | tfout |
-// custom (N).
+// custom (N) | arm (re-arms the counted rules, K = "off": spends them; nothing
+// is sent to the library).
 type Step struct {
 	T    string
 	K    string `json:",omitempty"`
@@ -73,7 +78,12 @@ type Scn struct {
 	Hid [][]int `json:",omitempty"`
 	// Pars[k], when present, is the parent relation of layout k instead of Parent: a
 	// widget (with its subtree) may be drawn by another parent after a layout switch
-	Pars  [][]int `json:",omitempty"`
+	Pars [][]int `json:",omitempty"`
+	// Wrap = widgets (ids) whose Draw returns a surface holding one child surface of
+	// the same size tagged with the widget itself (a decoration around its own
+	// content, as list.Dynamic draws its cursor); the widget's children hang below
+	// the inner surface
+	Wrap  []int `json:",omitempty"`
 	Rules []Rule
 	Steps []Step
 }
@@ -116,6 +126,7 @@ type session struct {
 	redrawQ bool // a driver widget returned a RedrawCmd since the last root Draw
 	lay     int  // layout the next Draw uses
 	ws      []vxfw.Widget
+	fired   []int // per rule: answers given since the last "arm"
 }
 
 type plainW struct {
@@ -213,14 +224,18 @@ func (s *session) toCmd(c *CmdD) vxfw.Command {
 func (s *session) offer(id int, ph string, ev vaxis.Event) (vxfw.Command, error) {
 	cls, ser := classOf(ev)
 	var ret *CmdD
+	s.mu.Lock()
 	for i := range s.sc.Rules {
 		r := &s.sc.Rules[i]
 		if (r.W == 0 || r.W == id) && r.Cls == cls && (r.Ph == "" || r.Ph == ph) {
+			if r.N > 0 && s.fired[i] >= r.N {
+				continue
+			}
+			s.fired[i]++
 			ret = r.Cmd
 			break
 		}
 	}
-	s.mu.Lock()
 	s.log = append(s.log, entry{w: id, ph: ph, cls: cls, ser: ser, ret: ret})
 	if cls == "S" {
 		s.seen[ser] = true
@@ -296,7 +311,26 @@ func (sc *Scn) parentAt(lay int) []int {
 	return sc.Parent
 }
 
+func (sc *Scn) wrapped(id int) bool {
+	for _, w := range sc.Wrap {
+		if w == id {
+			return true
+		}
+	}
+	return false
+}
+
 func (s *session) surface(id, lay int) vxfw.Surface {
+	if s.sc.wrapped(id) {
+		g := s.sc.Lays[lay][id-1]
+		outer := vxfw.NewSurface(uint16(g.W), uint16(g.H), s.ws[id-1])
+		outer.AddChild(0, 0, s.ownSurface(id, lay))
+		return outer
+	}
+	return s.ownSurface(id, lay)
+}
+
+func (s *session) ownSurface(id, lay int) vxfw.Surface {
 	g := s.sc.Lays[lay][id-1]
 	sf := vxfw.NewSurface(uint16(g.W), uint16(g.H), s.ws[id-1])
 	cell := vaxis.Cell{Character: vaxis.Character{Grapheme: string(rune('A' + (id-1)%26)), Width: 1}}
@@ -456,12 +490,16 @@ func Run(ctx *Ctx, sc *Scn) (evs []trace.Ev, note string) {
 		}
 		lays[k] = gs
 	}
-	evs = append(evs, trace.Ev{"ev": "reset", "n": n, "pars": pars, "caps": sc.Caps, "lays": lays})
+	wraps := make([]bool, n)
+	for i := range wraps {
+		wraps[i] = sc.wrapped(i + 1)
+	}
+	evs = append(evs, trace.Ev{"ev": "reset", "n": n, "pars": pars, "caps": sc.Caps, "wraps": wraps, "lays": lays})
 	vs, err := vxsess.Start(responder.FromMask(0, false), sc.Cols, sc.Rows)
 	if err != nil {
 		return append(evs, trace.Ev{"ev": "panic", "pmsg": "start"}), "start: " + err.Error()
 	}
-	s := &session{sc: sc, seen: map[int]bool{}}
+	s := &session{sc: sc, seen: map[int]bool{}, fired: make([]int, len(sc.Rules))}
 	s.cond = sync.NewCond(&s.mu)
 	for i := 0; i < n; i++ {
 		p := plainW{s: s, id: i + 1}
@@ -563,6 +601,18 @@ func Run(ctx *Ctx, sc *Scn) (evs []trace.Ev, note string) {
 			break
 		}
 		executed = i
+		if st.T == "arm" {
+			// K == "off": every counted rule is spent until the next "arm"
+			s.mu.Lock()
+			for k := range s.fired {
+				s.fired[k] = 0
+				if st.K == "off" {
+					s.fired[k] = sc.Rules[k].N
+				}
+			}
+			s.mu.Unlock()
+			continue
+		}
 		vs.Con.Take() // quiescent here: what is written until the frame sentinel is the frame
 		if st.T == "custom" {
 			vs.App.PostEvent(customEv{N: st.N})
